@@ -585,4 +585,76 @@ class NoDepsChains(object):
         return observe(mods, {last: truth[last]}, dict((n, 'value') for n in names), sig, request=[last],
                        options={'noDeps': True} if case['nd'] else None)
 
-FAMILIES = [Shapes(), Spellings(), Kinds(), SameNames(), ArcZero(), TableOrders(), ArcValues(), NoDepsChains()]
+class AfterFailures(object):
+    name = 'I-valid-set-after-a-failing-module'
+    describe = ('ONE compiler: a module that fails - leaving symbols postponed (object of a type nobody defines, row before a table '
+                'that never comes), with an unknown OID parent, with a duplicate symbol, in the code generator - is compiled first '
+                '(an earlier call), or stands as a broken copy in the first of two sources, or is requested in the same call with '
+                'errors ignored; then a valid two-module set with forward references: it compiles and every OID is the declared one')
+
+    BAD = {
+        'postponed-type': 'badObj OBJECT-TYPE SYNTAX NowhereDefinedType MAX-ACCESS read-only STATUS current DESCRIPTION "d" ::= { enterprises 66 }\n',
+        'postponed-row': ('badEntry OBJECT-TYPE SYNTAX BadEntry MAX-ACCESS not-accessible STATUS current DESCRIPTION "d" INDEX { badIdx } '
+                          '::= { badTable 1 }\n'),
+        'unknown-parent': 'badNode OBJECT IDENTIFIER ::= { nowhereDefined 1 }\n',
+        'duplicate': 'badNode OBJECT IDENTIFIER ::= { enterprises 66 }\nbadNode OBJECT IDENTIFIER ::= { enterprises 67 }\n',
+        'codegen': "BadRange ::= INTEGER (''H..'ff'H)\n",
+    }
+
+    def blocks(self, tier):
+        return [{'bad': b} for b in sorted(self.BAD)]
+
+    def cases(self, block, tier):
+        for how in ('earlier-call', 'same-call-bad-first', 'same-call-bad-last', 'broken-copy-in-first-source'):
+            if how == 'broken-copy-in-first-source' and block['bad'] == 'codegen':
+                continue   # a copy that has a symbol table IS the first source's text (C08); that it fails later is its failure
+            for backend in ('json', 'pysnmp'):
+                yield {'bad': block['bad'], 'how': how, 'backend': backend}
+
+    def run_case(self, case):
+        hdr = 'IMPORTS OBJECT-TYPE, enterprises FROM SNMPv2-SMI'
+        lib_good = ('LIB-MIB DEFINITIONS ::= BEGIN\n%s;\nlibLeaf OBJECT IDENTIFIER ::= { libRoot 1 }\n'
+                    'libRoot OBJECT IDENTIFIER ::= { enterprises 55 }\nEND\n' % hdr)
+        lib_bad = ('LIB-MIB DEFINITIONS ::= BEGIN\n%s;\nlibRoot OBJECT IDENTIFIER ::= { enterprises 55 }\n%sEND\n' % (hdr, self.BAD[case['bad']]))
+        bad = 'BAD-MIB DEFINITIONS ::= BEGIN\n%s;\n%sEND\n' % (hdr, self.BAD[case['bad']])
+        top = ('TOP-MIB DEFINITIONS ::= BEGIN\n%s libLeaf FROM LIB-MIB;\ntopObj OBJECT-TYPE SYNTAX INTEGER MAX-ACCESS read-only STATUS current '
+               'DESCRIPTION "d" ::= { topNode 2 }\ntopNode OBJECT IDENTIFIER ::= { libLeaf 7 }\nEND\n' % hdr)
+        w = env.CaptureWriter()
+        comp = env.MibCompiler(env.fresh_parser('smiV2'), env.make_codegen(case['backend']), w)
+        first = env.base_texts()
+        second = {}
+        if case['how'] == 'broken-copy-in-first-source':
+            first.update({'LIB-MIB': lib_bad, 'TOP-MIB': top})
+            second['LIB-MIB'] = lib_good
+        else:
+            first.update({'LIB-MIB': lib_good, 'TOP-MIB': top, 'BAD-MIB': bad})
+        comp.addSources(env.DictReader(first, tag='first'), env.DictReader(second, tag='second'))
+        comp.addSearchers(env.StubSearcher(*env.BASE_NAMES))
+        sig = 'C01|I|%s|%s|%s' % (case['bad'], case['how'], case['backend'])
+        try:
+            if case['how'] == 'earlier-call':
+                comp.compile('BAD-MIB', ignoreErrors=True)
+                del w.written[:]
+                res = comp.compile('TOP-MIB')
+            elif case['how'] == 'same-call-bad-first':
+                res = comp.compile('BAD-MIB', 'TOP-MIB', ignoreErrors=True)
+            elif case['how'] == 'same-call-bad-last':
+                res = comp.compile('TOP-MIB', 'BAD-MIB', ignoreErrors=True)
+            else:
+                res = comp.compile('TOP-MIB')
+        except Exception as exc:
+            return 'escaped', [('%s|exception-escapes-compile|%s' % (sig, type(exc).__name__), repr(exc)[:300])], 1
+        vs = []
+        for n in ('TOP-MIB', 'LIB-MIB'):
+            if res.get(n) != 'compiled':
+                vs.append(('%s|valid-module-%s' % (sig, res.get(n)), '%s: %r %r' % (n, res.get(n), getattr(res.get(n), 'error', None))))
+        if not vs:
+            want = {'LIB-MIB': {'1.3.6.1.4.1.55', '1.3.6.1.4.1.55.1'}, 'TOP-MIB': {'1.3.6.1.4.1.55.1.7', '1.3.6.1.4.1.55.1.7.2'}}
+            for n, oids in want.items():
+                got = set(getattr(res[n], 'oids', ()) or ())
+                if got != oids:
+                    vs.append(('%s|status.oids-differ' % sig, '%s: %r, declared %r' % (n, sorted(got), sorted(oids))))
+        return repr(sorted((k, str(v)) for k, v in res.items())), vs, 2
+
+
+FAMILIES = [Shapes(), Spellings(), Kinds(), SameNames(), ArcZero(), TableOrders(), ArcValues(), NoDepsChains(), AfterFailures()]
